@@ -37,6 +37,12 @@ def run(rep, tier, seed):
         doc = hostile_document(rng)
         n = rng.choice([1, 1, 2, 2, 3])
         rrs = [ruledrv.rule_recipe(rng, doc, well_typed=True, cast_p=0.4, maxlen=3) for _ in range(n)]
+        if rng.random() < 0.12:
+            # arguments that are data paths into the same document (also .single() / .first() paths that match several
+            # nodes or none): whatever they resolve to - or fail to - the node fails, validation does not raise
+            from harness.props import c17
+            j = rng.randrange(len(rrs))
+            rrs[j] = dict(rrs[j], cond=c17.cross_cond(rng, doc))
         sub = rng.random() < 0.04 and "dtype" not in repr(rrs)
         if sub:
             doc = gen.subclassify(doc)       # OrderedDict / list-subclass documents are documents all the same
